@@ -689,6 +689,9 @@ def check_C09(rep, scr, tier, seed):
         sbuf = name in ('sprintf_s', 'vsprintf_s', 'snprintf_s', 'vsnprintf_s', 'swprintf_s', 'vswprintf_s', 'snwprintf_s', 'vsnwprintf_s')
         specials = [('%n', 'pfx', 64), ('%ln', 'pfx', 64)]      # the byte in front of the format is '%'
         if sbuf: specials += [('%.0ls%.0ls%n' if wide else '%.0s%.0s%n', '', 8), ('%.0ls%.0ls%ln' if wide else '%.0s%.0s%ln', '', 8)]   # %n beyond the first dmax characters
+        # the same format buffer (same address, same length) first with a harmless text, then rewritten to contain %n:
+        # a verdict remembered per address instead of per content lets the second call through
+        specials += [('xyzw', '', 64), ('xy%n', '', 64), ('uvw xyzw', '', 64), ('uvw xy%n', '', 64)]
         for fmt, special, dmx in [(f, '', 64) for f in formats] + specials:
             if scanf and any(ch in 'dxcu' for ch, _ in py_convs(fmt, True)): continue
             n += 1; cid = 'f%d' % n
@@ -1913,6 +1916,12 @@ def c10_cases(seed, tier):
         for dmax in dmaxes(len(d)):
             for f in ('strisalphanumeric_s', 'strisascii_s', 'strisdigit_s', 'strishex_s', 'strislowercase_s', 'strismixedcase_s', 'strisuppercase_s'):
                 add(f, D, None, [(1, 0), dmax, UNK], d=d, dmax=dmax)
+    # the character classes are functions of one byte: every byte value, alone and behind a character every class but one accepts
+    for bv in range(1, 256):
+        for d in ([bv], [0x31, bv]) if tier == 'quick' else ([bv], [0x31, bv], [bv, 0x41], [0x61, bv, 0x46]):
+            D = d + [0]
+            for f in ('strisalphanumeric_s', 'strisascii_s', 'strisdigit_s', 'strishex_s', 'strislowercase_s', 'strismixedcase_s', 'strisuppercase_s'):
+                add(f, D, None, [(1, 0), len(D), UNK], d=d, dmax=len(D))
     # memory comparisons: byte / 16 / 32 bit / wide
     for _ in range(250 if tier == 'quick' else 1500):
         ln = rng.randrange(1, 20); a = [rng.choice(alpha) for _ in range(ln)]; b = list(a)
@@ -2070,6 +2079,46 @@ def check_C10(rep, scr, tier, seed):
                                 {'key': (f, kind), 'property': 'C10', 'function': f, 'failure': kind, 'case': c.to_json(), 'case_line': c.line(), 'impl_outcome': a.raw, 'what': t})
         b = om.get(c.id) if f in C10_MODELLED else None
         if b is not None and a.fault == '-' and (a.ret, a.blocks, a.handlers) != (b.ret, b.blocks, b.handlers): rep.mismatches.append((c, a, b, 'O1'))
+    # bsearch_s (shared with C16): sorted arrays, every key from below the minimum to above the maximum; in the 'tail' cases the object
+    # continues behind the nmemb declared elements with larger, still sorted elements (a search window that creeps past nmemb finds them)
+    import random
+    rng = random.Random(seed * 23 + 2); bc = []; n = 0
+    def key4(v, size): k = min(size, 4); return v.to_bytes(k, 'big') + bytes(rng.randrange(256) for _ in range(size - k))
+    for size in (1, 4, 7):
+        for nm in range(0, 17 if tier == 'quick' else 33):
+            for tail in (0, 4):
+                allv = sorted(rng.randrange(0, 12) * 2 + 1 for _ in range(nm + tail))
+                vals = allv[:nm]
+                data = b''.join(key4(v, size) for v in allv) or b'\0'
+                for kv in sorted(set(list(range(0, 26, 3)) + allv[nm:] + vals[-2:] + vals[:1])):
+                    n += 1
+                    bc.append(vlib.Case('bs%d' % n, 'bsearch_s', [('R', key4(kv, size)), ('L' if tail else 'R', data)], [(0, 0), (1, 0), nm, size, UNK],
+                                        {'cls': 'bsearch', 'nmemb': nm, 'size': size, 'vals': vals, 'key': kv, 'tail': tail, 'func': 'bsearch_s'}))
+    cfb = '%s/cases_c10b.txt' % scr.dir
+    with open(cfb, 'w') as f:
+        for x in bc: f.write(x.line() + '\n')
+    oib = vlib.run_impl(impls['O1'], cfb, bc); omb = vlib.run_model(md, vlib.model_args(consts), cfb)
+    for x in bc:
+        a = oib.get(x.id); m = x.meta
+        rep.evals += 1; rep.count('bsearch_s/size=%d/tail=%d' % (m['size'], m['tail']))
+        if a is None: continue
+        fails = []; size, nm = m['size'], m['nmemb']
+        if a.fault != '-': fails.append(('fault', 'access outside nmemb*size bytes: fault at %s' % a.fault))
+        else:
+            rv, bad = a.ret.split(',') if ',' in a.ret else (a.ret, '0')
+            rep.nontrivial.add(('bsearch_s', size, nm, rv == 'N'))
+            if bad != '0': fails.append(('comparator-args', 'the comparator was called with %s' % ('a foreign context' if int(bad) & 1 else 'a pointer that is not one of the nmemb elements / the key')))
+            present = m['key'] in m['vals']
+            if rv == 'N':
+                if present and nm > 0: fails.append(('not-found', 'key %d is among the first %d elements %s but NULL was returned' % (m['key'], nm, m['vals'])))
+            else:
+                blk, off = (rv[1:].split(':') + ['-1'])[:2] if rv.startswith('P') else ('?', '-1'); off = int(off)
+                if blk != '1' or off < 0 or off % size or off // size >= nm or m['vals'][off // size] != m['key']:
+                    fails.append(('wrong-element', 'returned %s, bsearch over the first %d elements gives %s' % (rv, nm, 'an element equal to the key' if present else 'NULL')))
+            b = omb.get(x.id)
+            if not fails and b is not None and (rv, a.handlers) != (b.ret, b.handlers): rep.mismatches.append((x, a, b, 'O1'))
+        for kind, text in fails:
+            rep.violation('bsearch_s(nmemb=%d, size=%d, key=%d): %s' % (nm, size, m['key'], text), {'key': ('bsearch_s', kind), 'property': 'C10', 'function': 'bsearch_s', 'failure': kind, 'case': x.to_json(), 'case_line': x.line(), 'impl_outcome': a.raw, 'what': text})
     report_proofs(rep, pr, 'C10')
     report_mismatches(rep, 'T1 (query function models vs implementation)')
     rep.trusted = TRUSTED_COMMON + ['references of the oracle: Python re-implementations of strcmp/strcasecmp/memcmp/strchr/strrchr/strpbrk/strspn/strcspn/strstr/memchr/memrchr/wcscmp/wcsnlen restricted to the first dmax elements (harness/props.py c10_reference)',
